@@ -113,8 +113,15 @@ def generate(rng, cfg: Dict) -> Dict:
             it["ref"] = c.pick(serials)
         sc["vars"] = [{"name": "v0", "t": "A", "dom": 0}]
         v = ["var", 0]
-        conds = [_single_cond(c, v, c.weighted([(0, 3), (1, 3), (2, 1)]), sc["streams"]) for _ in range(c.weighted([(0, 2), (1, 5), (2, 2)]))]
+        if c.chance(0.15):
+            # a collection attribute that is itself lazily produced, flattened
+            sc["mode"] = "inner"
+            conds = [["cmp", c.pick(eval_gen.CMP_OPS), ["flatten", ["attr", v, "gxs"]], ["lit", c.int(0, 3)]]]
+        else:
+            conds = [_single_cond(c, v, c.weighted([(0, 3), (1, 3), (2, 1)]), sc["streams"]) for _ in range(c.weighted([(0, 2), (1, 5), (2, 2)]))]
         sc["queries"] = [{"q": "an", "shape": "entity", "sel": [v], "conds": conds}]
+        if c.chance(0.2):
+            sc["queries"][0]["quant"] = [c.pick(["atleast", "atmost", "exactly"]), c.int(0, 4)]
     elif mode == "multi":
         nv = c.weighted([(2, 4), (3, 2)])
         sc["domains"], sc["vars"] = [], []
@@ -257,7 +264,8 @@ def execute(scenario: Dict) -> Dict:
     for qi, qd in enumerate(scenario["queries"]):
         vs = _vars([qd.get("sel", []), qd.get("conds", []), qd.get("rule") or []], set())
         kinds = {v: next((d["kind"] for d in scenario["domains"] if d["id"] == scenario["vars"][v]["dom"]), None) for v in vs if v < len(scenario["vars"])}
-        plain = qd.get("q") == "an" and not qd.get("quant") and not _has_tag([qd.get("conds", []), qd.get("rule") or []], ("exists", "forall", "subq", "shared"))
+        # a result-count constraint never needs to look ahead: results are handed out as they are found
+        plain = qd.get("q") == "an" and not _has_tag([qd.get("conds", []), qd.get("rule") or []], ("exists", "forall", "subq", "shared"))
         is_rule = bool(qd.get("rule"))
         if is_rule and '"next"' in kernel.canonical(qd["rule"]):
             plain = False  # next_rule is a union: it evaluates both branches over the whole domain by design
@@ -292,6 +300,25 @@ def execute(scenario: Dict) -> Dict:
 
     def check_demand(task, value):
         qi = task["qi"]
+        if scenario.get("mode") == "inner" and isinstance(value, list) and value and value[0] == "i":
+            # L8: the k-th result for item s is its k-th matching inner element; the inner producer has been pulled
+            # exactly that far
+            qd0 = scenario["queries"][qi]
+            cond = qd0["conds"][0]
+            item = next((it for d in scenario["domains"] for it in d["items"] if it["s"] == value[1]), None)
+            if item is not None and cond[0] == "cmp" and cond[2][0] == "flatten":
+                import operator as _op
+
+                fn = {"==": _op.eq, "!=": _op.ne, "<": _op.lt, "<=": _op.le, ">": _op.gt, ">=": _op.ge}[cond[1]]
+                matches = [i for i, x in enumerate(item["xs"]) if fn(x, cond[3][1])]
+                nth = task.setdefault("per_item", {}).get(value[1], 0)
+                task["per_item"][value[1]] = nth + 1
+                if nth < len(matches):
+                    pulled = mon.inner_pulls.get(value[1], 0)
+                    counters.inc("probe.L8_checked")
+                    if pulled != matches[nth] + 1:
+                        verdicts.append(kernel.verdict("C10.L8", f"holding the result for inner element #{matches[nth] + 1} of item {value[1]}'s lazily produced collection, {pulled} of its elements have been pulled", phase="STEP", via="inner-over-pull" if pulled > matches[nth] + 1 else "inner-under-pull", query=qi))
+                        task["flagged"] = True
         probe_value = value
         if elig5.get(qi) and isinstance(value, list) and value and value[0] == "k":
             items = [x[1] for x in value[2] if isinstance(x[1], list) and x[1] and x[1][0] == "i"]
